@@ -327,6 +327,15 @@ def run_shard(ctx):
         check_pattern(f"({P}Bin @left -> a @right -> a)", "reject", "duplicate-capture")
         check_pattern(f"({P}List @items=[(*) -> a * -> a])", "reject", "duplicate-capture")
         check_pattern(f"({P}Bin @left=({P}Leaf @v -> a) @op -> a)", "reject", "duplicate-capture")
+        # the same name captured inside two textually identical sub-patterns, inside a sequence, two levels apart
+        check_pattern(f"({P}Bin @left=({P}Leaf @s -> a) @right=({P}Leaf @s -> a))", "reject", "duplicate-capture")
+        check_pattern(f"({P}List @items=[({P}Leaf @v -> a) ({P}Leaf @v -> a)])", "reject", "duplicate-capture")
+        check_pattern(f"({P}Bin @op -> a @left=({P}Un @child=({P}Leaf @v -> a)))", "reject", "duplicate-capture")
+        # ... while identical sub-patterns without a clash, and a use after a capture at an outer level, are fine
+        check_pattern(f"({P}Bin @left=({P}Leaf @s -> a) @right=({P}Leaf @s -> b))", "accept", "capture-ok")
+        check_pattern(f"({P}Bin @left=({P}Leaf @s=\"x\") @right=({P}Leaf @s=\"x\"))", "accept", "capture-ok")
+        check_pattern(f"({P}Bin @op -> t @right=({P}Leaf @s=$t))", "accept", "capture-ok")
+        check_pattern(f"({P}Bin @left=({P}Leaf @s -> t) @right=({P}Un @child=({P}Leaf @s=$t)))", "accept", "capture-ok")
         ctx.count("var_before_capture")
         check_pattern(f"({P}Bin @left=$a @right -> a)", "reject", "var-before-capture")
         check_pattern(f"({P}List @items=[$a (*) -> a])", "reject", "var-before-capture")
